@@ -105,6 +105,7 @@ class MultiTypeMap(dict):
         self.tiebreaks = {}
         self.dependent = {}
         self.type_tuples = {}
+        self.signatures = {}
         self.empty = MISSING
         self.key_error = key_error
         self.name = name
@@ -156,12 +157,21 @@ class MultiTypeMap(dict):
             for c in candidates:
                 specificities.setdefault(c, []).append(results[c])
 
+        if candidates is None:
+            # No argument to dispatch on: every handler that can be called
+            # without any argument is a candidate.
+            candidates = {
+                h
+                for h, sig in self.signatures.items()
+                if sig.req_pos == 0 and not sig.req_names
+            }
+
         candidates = _verif.order("mro.candidates", candidates)
         candidates = [
             Candidate(
                 handler=c,
                 priority=self.priorities.get(c, 0),
-                specificity=tuple(specificities[c]),
+                specificity=tuple(specificities.get(c, ())),
                 tiebreak=self.tiebreaks.get(c, 0),
             )
             for c in candidates
@@ -224,6 +234,7 @@ class MultiTypeMap(dict):
         self.priorities[handler] = sig.priority
         self.tiebreaks[handler] = sig.tiebreak
         self.type_tuples[handler] = obj_t_tup
+        self.signatures[handler] = sig
         self.dependent[handler] = any(
             is_dependent(t[1] if isinstance(t, tuple) else t) for t in obj_t_tup
         )
@@ -384,13 +395,6 @@ class MultiTypeMap(dict):
                 return self[obj_t_tup]
             else:
                 raise self.key_error(real_tup, ())
-
-        if not obj_t_tup:
-            if self.empty is MISSING:  # pragma: no cover
-                # Might not be reachable because of codegen
-                raise self.key_error(obj_t_tup, ())
-            else:
-                return self.empty[0]
 
         self.resolve(obj_t_tup)
         if obj_t_tup in self.errors:
